@@ -1020,7 +1020,9 @@ class PGPMessage(Armorable, PGPObject):
             ##TODO: is it worth coming up with a way of disabling one-pass signing?
             for sig in reversed(self._signatures):
                 ops = sig.make_onepass()
-                if sig is not self._signatures[-1]:
+                # RFC 4880 5.4: the flag octet is zero while another one-pass packet follows;
+                # only the last one, which belongs to the first signature after the data, is non-zero
+                if sig is self._signatures[0]:
                     ops.nested = True
                 yield ops
 
